@@ -264,6 +264,10 @@ def make_runner(mode, cls='_SimpleWrapped', nargs=1, nkeys=1, nfuncs=2, depth=2,
         elif mode == 'wrappers':
             # a chain of ``depth`` wrapper objects around a plain function, each wrapped by build(); then wrappers.wrappers(outer)
             ws = [Recorder('wrapper%d' % i) for i in range(depth)]
+            # the same decorator may be applied more than once in a stack
+            for i in range(1, depth):
+                if ctx.decide(z3.Bool('layer_%d_applies_the_decorator_of_layer_0_again' % i)):
+                    ws[i] = ws[0]
             env['ws'] = ws
             obj = new_wrapped('innermost')
             for i in reversed(range(depth)):
